@@ -112,7 +112,7 @@ class CreateWrapperFields(RelativeHandlerInterface):
         """Validate if the source class can be converted to a wrapper field.
 
         Rules:
-            1. It must not have any extensions
+            1. It must not have any extensions or be abstract
             2. It must contain exactly one type
             3. It must be derived from a xs:element
             4. It must not be optional
@@ -132,6 +132,7 @@ class CreateWrapperFields(RelativeHandlerInterface):
 
         return (
             not source.extensions
+            and not source.abstract
             and len(source.attrs) == 1
             and source.attrs[0].is_element
             and not source.attrs[0].is_optional
